@@ -1212,6 +1212,10 @@ def sym_eq(interp, a, b):
         return sa.arr == sb.arr
     if isinstance(a, V.TRef) and isinstance(b, V.TRef):
         return a.ref == b.ref
+    if type(a).__name__ == "ClassNameProbe" and isinstance(b, str):
+        return U("class_name_is_" + b, z3.BoolSort(), a.node) if b != "AccumulateGrad" else U("is_accumulate_grad", z3.BoolSort(), a.node)
+    if isinstance(a, NodeRef) and isinstance(b, NodeRef):
+        return a.term == b.term
     if isinstance(a, ClassInfo) and isinstance(b, ClassInfo):
         return a is b
     return MISSING
@@ -1533,3 +1537,4 @@ class NodeRef:
 from .aten import *  # noqa: E402,F401,F403
 from .lten import *  # noqa: E402,F401,F403
 from . import cvx as _cvx  # noqa: E402,F401
+from . import graph as _graph  # noqa: E402,F401
